@@ -78,6 +78,138 @@ def quad_class(P, x, y):
     return None
 
 
+# ---- running error analysis of the code's own operation sequence (used ONLY to attribute an affine-exactness
+# failure: "explained by rounding of the documented formulas" = known conditioning finding, or not = new violation).
+# A number is (v, e): v the binary64 value the code computes (same operations, same order), e >= |v - exact value on the
+# same inputs| by the standard model fl(x op y) = (x op y)(1 + d), |d| <= U.  A comparison whose margin is within e, a
+# zero/NaN divisor or a negative radicand within e makes the bound infinite (the branch itself is decided by rounding).
+U = 2.0 ** -53
+
+
+class Unc(Exception):
+    pass
+
+
+def _n(v, e=0.0):
+    return (float(v), float(e))
+
+
+def e_add(a, b, sign=1.0):
+    v = a[0] + sign * b[0]
+    return (v, a[1] + b[1] + U * abs(v))
+
+
+def e_sub(a, b):
+    return e_add(a, b, -1.0)
+
+
+def e_mul(a, b):
+    v = a[0] * b[0]
+    return (v, abs(a[0]) * b[1] + abs(b[0]) * a[1] + a[1] * b[1] + U * abs(v))
+
+
+def e_div(a, b):
+    if not abs(b[0]) > b[1]:
+        raise Unc("divisor is zero within its rounding error")
+    v = a[0] / b[0]
+    return (v, (a[1] + abs(v) * b[1]) / (abs(b[0]) - b[1]) + U * abs(v))
+
+
+def e_sqrt(a):
+    if not a[0] - a[1] > 0:
+        raise Unc("radicand is not positive within its rounding error")
+    v = math.sqrt(a[0])
+    return (v, a[1] / math.sqrt(a[0] - a[1]) + U * v)
+
+
+def e_inside(a, lo=0.0, hi=1.0):
+    """the code's test lo <= v <= hi; undecidable within the error -> Unc"""
+    v, e = a
+    if isnan(v) or math.isinf(e):
+        raise Unc("NaN")
+    if min(abs(v - lo), abs(v - hi)) <= e:
+        raise Unc("range test decided by rounding")
+    return lo <= v <= hi
+
+
+def e_calc_abc(P, oy, ox):
+    (x1, y1), (x2, y2), (x3, y3), (x4, y4) = [(_n(a), _n(b)) for a, b in P]
+    x21, x31, x42 = e_sub(x2, x1), e_sub(x3, x1), e_sub(x4, x2)
+    y21, y31, y42 = e_sub(y2, y1), e_sub(y3, y1), e_sub(y4, y2)
+    a = e_sub(e_mul(x31, y42), e_mul(y31, x42))
+    b = e_sub(e_add(e_sub(e_add(e_sub(e_mul(oy, e_sub(x42, x31)), e_mul(ox, e_sub(y42, y31))), e_mul(x31, y2)), e_mul(y31, x2)),
+                    e_mul(y42, x1)), e_mul(x42, y1))
+    c = e_sub(e_add(e_sub(e_mul(oy, x21), e_mul(ox, y21)), e_mul(x1, y2)), e_mul(x2, y1))
+    return a, b, c
+
+
+def e_solve_quadratic(a, b, c):
+    nb = (-b[0], b[1])
+    cands = []
+    try:
+        sq = e_sqrt(e_sub(e_mul(b, b), e_mul(e_mul(_n(4.0), a), c)))
+        den = e_mul(_n(2.0), a)
+        cands = [e_div(e_add(nb, sq), den), e_div(e_sub(nb, sq), den)]
+    except Unc:
+        # sqrt/division undecided: if |a| is zero within its error both quadratic candidates are inf/NaN for the code as well
+        if abs(a[0]) > a[1]:
+            raise
+        if a[0] != 0.0:
+            raise
+    for x in cands:
+        if e_inside(x):
+            return x
+    x3 = e_div((-c[0], c[1]), b)
+    if e_inside(x3):
+        return x3
+    return None
+
+
+def e_solve_other(f, y1, y2, y3, y4, oy):
+    y1, y2, y3, y4 = _n(y1), _n(y2), _n(y3), _n(y4)
+    y21, y43 = e_sub(y2, y1), e_sub(y4, y3)
+    g = e_div(e_sub(e_sub(oy, y1), e_mul(y21, f)), e_sub(e_sub(e_add(y3, e_mul(y43, f)), y1), e_mul(y21, f)))
+    return g if e_inside(g) else None
+
+
+def rounding_bound(P, x, y):
+    """(e_t, e_s): bounds on the rounding error of the (t, s) the documented algorithm returns for corners P and target
+    (x, y); (inf, inf) when a branch decision lies within the rounding error."""
+    ox, oy = _n(x), _n(y)
+    try:
+        t = e_solve_quadratic(*e_calc_abc(P, oy, ox))
+        if t is not None:
+            s = e_solve_other(t, P[0][1], P[2][1], P[1][1], P[3][1], oy)
+            if s is not None:
+                return t[1], s[1]
+        s = e_solve_quadratic(*e_calc_abc((P[0], P[2], P[1], P[3]), oy, ox))
+        if s is not None:
+            t = e_solve_other(s, P[0][1], P[1][1], P[2][1], P[3][1], oy)
+            if t is not None:
+                return t[1], s[1]
+    except (Unc, ZeroDivisionError, OverflowError, ValueError):
+        pass
+    return INF, INF
+
+
+def attribute(P, x, y, vals, s, t, err_abs):
+    """Key suffix for an affine-exactness failure of size err_abs (in the units of vals, the data at the corners P):
+    the known conditioning classes iff the error is within the running-error bound of the documented formulas."""
+    et, es = rounding_bound(P, x, y)
+    if math.isinf(et) or math.isinf(es):
+        bound = INF
+    else:
+        ds = abs((vals[1] - vals[0]) * (1 - t) + (vals[3] - vals[2]) * t)
+        dt = abs((vals[2] - vals[0]) * (1 - s) + (vals[3] - vals[1]) * s)
+        bound = 2 * (ds * es + dt * et + abs(vals[0] - vals[1] - vals[2] + vals[3]) * es * et)
+    if not err_abs <= bound:
+        return None, bound
+    diam = max(abs(p[0] - q[0]) + abs(p[1] - q[1]) for p in P for q in P)
+    if any(abs(p[0] - x) <= 1e-6 * diam or abs(p[1] - y) <= 1e-6 * diam for p in P):
+        return "target_on_source_gridline", bound
+    return "near_parallel_sides", bound
+
+
 def bilerp(v, s, t):
     return v[0] * (1 - s) * (1 - t) + v[1] * s * (1 - t) + v[2] * (1 - s) * t + v[3] * s * t
 
@@ -385,12 +517,12 @@ def gen_resample(ctx, n):
             # fine (about 20 m) fan-shaped swath onto a target whose projection coordinates are DEGREES: the coefficients
             # of the quadratic are tiny in absolute terms (a ~ 1e-10) although the cells are genuinely non-parallel
             sh = sw = r.randint(36, 44)
-            # (kept within about 2 degrees of the origin and with a pronounced fan: the untranslated coordinates enter the
-            # quadratic's coefficients, and further out the current code's own cancellation error reaches the 1e-6 tolerance)
-            d = r.choice([2e-4, 3e-4])
-            lon0, lat0 = r.uniform(0.2, 1.2), r.uniform(0.3, 2.0)
-            src = {"kind": "fan", "shape": [sh, sw], "d": d, "lon0": lon0, "lat0": lat0, "f1": r.uniform(0.002, 0.004),
-                   "f2": r.uniform(0.001, 0.003), "g1": r.uniform(-0.15, 0.15), "g2": r.uniform(-0.1, 0.1)}
+            # (the untranslated coordinates enter the quadratic's coefficients: c = oy*x21 - ox*y21 + x1*y2 - x2*y1 cancels from O(coord^2)
+            # to O(cell^2); an alarm here is attributed by the running-error bound, see attribute())
+            d = r.choice([1.5e-4, 2e-4, 3e-4])
+            lon0, lat0 = r.uniform(0.2, 3.0), r.uniform(0.3, 4.0)
+            src = {"kind": "fan", "shape": [sh, sw], "d": d, "lon0": lon0, "lat0": lat0, "f1": r.uniform(0.001, 0.004),
+                   "f2": r.uniform(0.0005, 0.003), "g1": r.uniform(-0.15, 0.15), "g2": r.uniform(-0.1, 0.1)}
             span = d * (sh - 1)
             th, tw = r.randint(9, 14), r.randint(9, 14)
             tgt = {"kind": "area", "proj": PROJS["longlat"], "shape": [th, tw],
@@ -560,10 +692,15 @@ def check_kernels(ctx, quads, k, texts):
                 diam = max(abs(p[0] - q_[0]) + abs(p[1] - q_[1]) for p in P for q_ in P)
                 resid = float(max(abs(bx - Fr(x)), abs(by - Fr(y)))) / diam
                 if resid > 1e-6:
-                    cls = quad_class(P, x, y)
+                    # attribute through the x and the y coordinate seen as two affine fields on the quadrilateral
+                    cx_, bx_ = attribute(P, x, y, [p[0] for p in P], sf, tf, float(abs(bx - Fr(x))))
+                    cy_, by_ = attribute(P, x, y, [p[1] for p in P], sf, tf, float(abs(by - Fr(y))))
+                    cls = cx_ and cy_
+                    ctx.count("affine_alarm:" + (cls or "unexplained"))
                     key = "C06.affine_exact" + ("." + cls if cls else "")
                     ctx.add_failure(key, "_get_fractional_distances: corners %s surround (%r, %r), returned (t, s) = (%r, %r) is accepted but "
-                                    "bilerp(corners; s, t) misses the target by %.3g of the cell size [%s]" % (P, x, y, tf, sf, resid, cls or "no degenerate class"), rp)
+                                    "bilerp(corners; s, t) misses the target by %.3g of the cell size [%s; rounding bound of the documented formulas %.3g]" % (
+                                        P, x, y, tf, sf, resid, cls or "not explained by rounding", max(bx_, by_) / diam), rp)
         # the parallelogram helper on genuine parallelograms that surround the target
         tp, sp = exp[12], exp[13]
         if kind in ("parallelogram", "parallelogram_dyadic", "witness_parallelogram") and not (isnan(tp) or isnan(sp)) and surrounded(P, x, y):
@@ -779,11 +916,12 @@ def check_resamplers(ctx, cases, obs, texts):
                 want = c0 + cx * (x - xc) + cy * (y - yc)
                 err = abs(vals["affine"] - want) / rng_aff
                 if err > 1e-6:
-                    cls = quad_class(P, x, y)
+                    cls, bnd = attribute(P, x, y, [d_aff[f] for f in flat], s, t, abs(vals["affine"] - want))
+                    ctx.count("affine_alarm:" + (cls or "unexplained"))
                     key = "C06.affine_exact" + ("." + cls if cls else "")
                     ctx.add_failure(key, "%s: target pixel %d at (%r, %r) is surrounded by source pixels %s; the affine field gives %r, the field at the "
-                                    "target is %r (error %.3g of the field's range; (t, s) = (%r, %r)) [%s]" % (
-                                        tpl, i, x, y, P, vals["affine"], want, err, t, s, cls or "no degenerate class"), dict(rp, pixel=i))
+                                    "target is %r (error %.3g of the field's range; (t, s) = (%r, %r)) [%s; rounding bound of the documented formulas %.3g of the range]" % (
+                                        tpl, i, x, y, P, vals["affine"], want, err, t, s, cls or "not explained by rounding", bnd / rng_aff), dict(rp, pixel=i))
         ctx.case(("resample", json.dumps(c, sort_keys=True)), nontrivial=produced > 0,
                  sample={"resample_" + tpl: {"source": c["source"].get("kind"), "shape_src": o["shape_src"], "shape_tgt": o["shape_tgt"]},
                          "pixels_with_value": produced, "surrounded": sur_n})
